@@ -43,7 +43,11 @@ CLASS_PROBES = [
     ("meta", "check_schema", [{"type": "integer"}, {"type": 12}, {"minimum": "x"}, {"minLength": "3"}]),
     ("ref", {"definitions": {"t": {"type": "integer"}}, "properties": {"a": {"$ref": "#/definitions/t"}}},
      [{"a": 1}, {"a": "s"}]),
+    ("required", {"required": ["b"]}, [{}, {"b": 1}, {"zz": 1}]),
+    ("dependencies", {"dependencies": {"a": ["b"]}}, [{"a": 1}, {"a": 1, "b": 2}, {"zz": 1}]),
 ]
+
+META_IDS = ["file:///verif-nonexistent/meta-%d.json" % i for i in (1, 2, 3, 4)]
 
 
 def fn_str_is_integer(checker, instance):
@@ -78,6 +82,11 @@ def kw_ref_custom(validator, value, instance, schema):
 
 def kw_type_permissive(validator, value, instance, schema):
     return ()
+
+
+def kw_required_custom(validator, value, instance, schema):
+    if isinstance(instance, dict) and "zz" in instance:
+        yield exceptions.ValidationError("custom required rejects zz")
 
 
 def fmt_cls(instance):
@@ -142,10 +151,33 @@ def probe_class(cls, instance_kwargs=None):
                 col.append("EXC " + type(e).__name__)
         out["%d:%s" % (i, tag)] = tuple(col)
     out["__tc__"] = tuple(sorted(probe_typechecker(cls.TYPE_CHECKER).items()))
+    mid = cls.ID_OF(cls.META_SCHEMA) if isinstance(cls.META_SCHEMA, dict) else ""
+    if mid and instance_kwargs is None:
+        try:
+            url, doc = RefResolver("", {}).resolve(mid)
+            out["__meta_served__"] = doc == cls.META_SCHEMA
+        except exceptions.RefResolutionError:
+            out["__meta_served__"] = "RefResolutionError"
+        except Exception as e:
+            out["__meta_served__"] = "EXC " + type(e).__name__
+    return out
+
+
+def probe_old_validators(vs):
+    out = {}
+    for mid, v in vs:
+        try:
+            out[mid] = v.is_valid(5)
+        except exceptions.RefResolutionError:
+            out[mid] = "RefResolutionError"
+        except Exception as e:
+            out[mid] = "EXC " + type(e).__name__
     return out
 
 
 def probe(kind, obj, extra=None):
+    if kind == "vold":
+        return probe_old_validators(obj)
     if kind == "tc":
         return probe_typechecker(obj)
     if kind == "fc":
@@ -196,6 +228,11 @@ class World(object):
         for n, fc in sorted(_format._draft_checkers.items()):
             self.add(n + "_format_checker", "fc", fc)
         self.add("FormatChecker", "fcclass", FormatChecker)
+        # validator objects built now, referring to metaschema ids that only later operations register:
+        # they took their snapshot of the known metaschemas at construction and must keep failing to resolve these
+        olds = [(mid, _e1.CLS[7]({"$ref": mid})) for mid in META_IDS]
+        self.objs.append(["validators-built-before", "vold", olds,
+                          {mid: "RefResolutionError" for mid in META_IDS}, None])
         self.cls_formats = []      # names registered class-wide so far
         self.counter = 0
 
@@ -235,7 +272,8 @@ OPS = ([("tc.redefine", b) for b in ("draft4_type_checker", "LAST")] +
        [("tc.redefine_many", "draft3_type_checker"), ("tc.remove", "draft6_type_checker"), ("tc.remove", "LAST")] +
        [("extend", b) for b in BASES] + [("extend+override", b) for b in BASES] +
        [("extend+add", b) for b in ("Draft4", "LAST")] + [("extend+tc", b) for b in ("Draft6", "LAST")] +
-       [("extend+override-ref", "Draft4"), ("extend+override-ref", "LAST"),
+       [("extend+override-ref", "Draft4"), ("extend+override-ref", "LAST"), ("extend+override-required", "Draft4"),
+        ("extend+override-required", "LAST"),
         ("extend+override+version", "Draft7"), ("extend+tc+version", "Draft4"), ("create+default_types", "Draft3")] +
        [("create", "Draft4"), ("create+version", "Draft7"), ("types-arg", "Draft4"), ("types-arg", "LAST")] +
        [("fc.checks", "draft7_format_checker"), ("fc.checks", "LAST"), ("fc.rechecks", "LAST"), ("cls_checks",),
@@ -291,6 +329,13 @@ def apply_op(w, op):
                 # check_schema evaluates the metaschema with the class itself, and every metaschema uses $ref
                 changes = {"8:ids": (("custom ref",), ("custom ref",)), "10:ref": (("custom ref",), ("custom ref",)),
                            "9:meta": probe("class", new)["9:meta"]}      # draft-dependent: recorded at creation
+            elif k == "extend+override-required":
+                new = jsv.extend(cls, validators={"required": kw_required_custom})
+                # only the probes of the keyword itself change (dependencies keeps its own meaning)
+                changes = {"11:required": ((), (), ("custom required rejects zz",))}
+                vec = probe("class", new)
+                if vec.get("9:meta") != pv.get("9:meta"):
+                    changes["9:meta"] = vec["9:meta"]       # the draft 4+ metaschemas use `required` themselves? (they do not)
             elif k == "extend+override+version":
                 # registered under the parent's own metaschema id, with a `type` keyword that accepts everything
                 # (so its check_schema accepts what the parent's rejects): the parent itself must not notice
@@ -337,7 +382,7 @@ def apply_op(w, op):
                                  type_checker=cls.TYPE_CHECKER, id_of=cls.ID_OF)
             else:
                 meta = dict(cls.META_SCHEMA)
-                meta["$id"] = meta["id"] = "http://verif.invalid/meta-%d" % (w.counter + 1)
+                meta["$id"] = meta["id"] = META_IDS[min(w.counter, len(META_IDS) - 1)]
                 new = jsv.create(meta_schema=meta, validators=cls.VALIDATORS, type_checker=cls.TYPE_CHECKER,
                                  id_of=cls.ID_OF, version="verif%d" % (w.counter + 1))
             w.add(w.fresh("class"), "class", new, with_changes(pv, changes))
